@@ -817,6 +817,10 @@ class ScalingFunctional(Functional, ScalingOperator):
         """Gradient operator of the functional."""
         return ConstantFunctional(self.domain, self.scalar)
 
+    def derivative(self, point):
+        """Derivative in ``point``: the (linear) functional itself."""
+        return self
+
 
 class IdentityFunctional(ScalingFunctional):
 
